@@ -156,6 +156,7 @@ def run_contract(contract: Contract, loader: Loader, contracts_by_target=None, m
 def run_path(contract, func, loader, contracts_by_target, variant, prefix):
     pr = PathResult()
     ctx = Ctx(prefix, tag=f"{contract.target}[{variant}]")
+    ctx.extra_axioms = _string_axioms_if_needed
     loops = {(contract.target, k): v for k, v in contract.loops.items()}
     for t, c in contracts_by_target.items():
         for k, v in getattr(c, "loops", {}).items():
@@ -213,10 +214,15 @@ def run_path(contract, func, loader, contracts_by_target, variant, prefix):
 # ---------------------------------------------------------------------------------------------
 
 def _uses_strings(fs):
+    """string terms are recognisable by the names of the string functions / interned constants (all start with str_)"""
     for f in fs:
-        if "PyStr" in f.sexpr():
+        if "str_" in f.sexpr():
             return True
     return False
+
+
+def _string_axioms_if_needed(fs):
+    return lib_py.string_axioms(fs) if _uses_strings(fs) else []
 
 
 def discharge(ob: Obligation, timeout_ms=None, try_cvc5=True):
@@ -228,7 +234,7 @@ def discharge(ob: Obligation, timeout_ms=None, try_cvc5=True):
     t0 = time.time()
     fs = list(ob.hyps) + [z3.Not(ob.goal)]
     if _uses_strings(fs):
-        fs = lib_py.string_axioms() + fs
+        fs = lib_py.string_axioms(fs) + fs
     s = z3.Solver()
     s.set("timeout", timeout_ms)
     s.add(*fs)
@@ -339,6 +345,6 @@ def check_sat(fs, timeout_ms=5000):
     s = z3.Solver()
     s.set("timeout", timeout_ms)
     if _uses_strings(fs):
-        fs = lib_py.string_axioms() + list(fs)
+        fs = lib_py.string_axioms(fs) + list(fs)
     s.add(*fs)
     return str(s.check())
